@@ -149,7 +149,8 @@ class C18(Check):
             'the event changed at least one observable of its side')
     technique = ('explicit-state breadth-first search over operation histories on the real objects against a '
                  'value-semantics reference model; de Bruijn histories containing every ordered event pair')
-    level_text = ('all operation histories up to depth 3 (quick) / 4 (thorough) on every object kind are executed on the '
+    level_text = ('all operation histories up to depth 3 (quick; depth 2 on four of the five alignment-produced / velocity-free '
+                  'molecule kinds) / 3-4 (thorough) on every object kind are executed on the '
                   'real classes and compared, after every event and on both sides, with a value-semantics model; longer '
                   'histories are covered by de Bruijn words (every ordered pair of events inside one long history)')
     level_note = ('trusted: numpy, the reference model (plain arrays, deep copies), the builders. Not covered: histories '
@@ -163,11 +164,14 @@ class C18(Check):
 
     def units(self, tier, seed):
         deep_kinds = ('mol_copy', 'mol_deep', 'residue', 'atom') if tier == 'thorough' else ()
-        self.bounds = {'depth': 3, 'depth_for': {k: 4 for k in deep_kinds}, 'de_bruijn_order': 2,
-                       'kinds': list(self.KINDS)}
+        # quick tier: the object kinds that differ from 'mol_align_end' only in how the pair was produced are
+        # explored to depth 2 (every ordered pair of events), the others to depth 3; thorough: 3 and 4
+        shallow = ('mol_novel', 'mol_align_start', 'mol_align_reend', 'mol_align_restart') if tier != 'thorough' else ()
+        self.bounds = {'depth': 3, 'depth_for': dict({k: 4 for k in deep_kinds}, **{k: 2 for k in shallow}),
+                       'de_bruijn_order': 2, 'kinds': list(self.KINDS)}
         u = []
         for kind in self.KINDS:
-            depth = 4 if kind in deep_kinds else 3
+            depth = 4 if kind in deep_kinds else (2 if kind in shallow else 3)
             evs = self.alphabet(kind)
             if kind.startswith('mol') and depth >= 3:
                 # partition the BFS by the first event (exact: the subtrees are disjoint histories)
